@@ -327,5 +327,68 @@ def run(ctx):
     instance_tested_by_identity(ctx, "R14.v")
     from checks import namespace_model
     namespace_model.report(ctx, "R14.w")
+    ctx.rule("R14.p", "the class route reaches the guard on every path: in ParameterizedMetaclass.__setattr__, once the attribute names a Parameter and the value is not a Parameter object, "
+                      "every path to a normal exit passes a call of the descriptor's __set__ (must-pass-through on the CFG)", floor=1)
+    class_route_reaches_the_setter(ctx, "R14.p")
+    ctx.rule("R14.d", "who may rebind the class-level value: every store to `<x>.default` in param is a Parameter's own (`self.default = ...` inside a Parameter class: constructors, the "
+                      "descriptor's __set__ behind its guard, compute_default, state fix-ups); nothing writes the `default` of another object", floor=1)
+    default_rebound_by_the_parameter_only(ctx, "R14.d")
     from checks.shared import slot_set_model
     slot_set_model(ctx, "R14.s")
+
+
+def class_route_reaches_the_setter(ctx, rule):
+    """Must-pass-through on the CFG of ParameterizedMetaclass.__setattr__: once the attribute names a Parameter and the
+    value is not a Parameter object, every path to a NORMAL exit passes a call of the descriptor's `__set__` -- the
+    only place where the read-only guard (and validation) lives.  A shortcut that returns earlier (e.g. 'the very object
+    the inherited Parameter already holds') lets `Sub.ro = Sub.ro` through without the TypeError."""
+    f = ctx.repo.func("param.parameterized.ParameterizedMetaclass.__setattr__")
+    cfg = ctx.facts.cfg(f)
+    brs = [n for n in cfg.live_nodes() if n.kind == "br" and n.polarity is True and "isinstance(value, Parameter)" in norm(n.ast) and "parameter" in norm(n.ast).split("isinstance")[0]]
+    if not brs:
+        raise AnalysisError("%s: the branch `parameter and not isinstance(value, Parameter)` of the metaclass __setattr__ is no longer found" % rule)
+    setters = {n.id for n in cfg.live_nodes() if n.kind != "br" and n.ast is not None and any(
+        isinstance(c, ast.Call) and isinstance(c.func, ast.Attribute) and c.func.attr == "__set__" for c in ast.walk(n.ast))}
+    if not setters:
+        ctx.fail(rule, f, f.node, "the class route no longer goes through the descriptor's __set__: nothing rejects an assignment to a read-only parameter at class level", key=f.qualname + "::no-setter-call")
+        return
+    for br in brs:
+        p = cfg.path(br, cfg.exit, avoid=lambda n: n.id in setters)
+        if p is not None:
+            off = [n for n in p if n.ast is not None and n.kind != "br"]
+            at = off[-1] if off else br
+            ctx.fail(rule, f, at, "a class-level assignment of a plain value to a Parameter attribute can leave ParameterizedMetaclass.__setattr__ normally without having called the descriptor's "
+                                  "__set__ (path: %s): the read-only guard and the validation are skipped on that path -- `Sub.ro = <the object it already holds>` no longer raises TypeError" % (
+                                      " -> ".join(cfg.witness(p))[:300]), key=f.qualname + "::setter-bypassed", input="class Sub(Base): pass; Sub.ro = Sub.ro   # ro = param.Number(1, readonly=True) on Base")
+            return
+    ctx.ok(rule, f, brs[0], "every normal exit of the class route passes the descriptor's __set__ (read-only guard, validation)")
+
+
+def default_rebound_by_the_parameter_only(ctx, rule):
+    """Who may rebind the class-level value: a store to `<x>.default` is found only where <x> is the function's own
+    first parameter inside a Parameter class (constructors, the descriptor's __set__ behind its constant / read-only
+    test, compute_default, state fix-ups).  A store to the `default` of ANOTHER object -- e.g. the namespace writing
+    `pobj.default = value` -- rebinds the value behind the guard."""
+    n_self, bad = 0, []
+    for f in ctx.repo.all_funcs("param"):
+        own = f.params[0] if f.params else None
+        for st in ast.walk(f.node):
+            targets = st.targets if isinstance(st, ast.Assign) else [st.target] if isinstance(st, (ast.AugAssign, ast.AnnAssign)) else []
+            for t in targets:
+                for x in ast.walk(t):
+                    if isinstance(x, ast.Attribute) and isinstance(x.ctx, ast.Store) and x.attr == "default":
+                        in_param_class = f.cls is not None and ctx.hier.is_subclass(f.cls.qualname, PARAMETER)
+                        if isinstance(x.value, ast.Name) and x.value.id == own and in_param_class:
+                            n_self += 1
+                        else:
+                            bad.append((f, st, norm(x)))
+            if isinstance(st, ast.Call) and norm(st.func) in ("setattr", "object.__setattr__") and len(st.args) == 3 and isinstance(st.args[1], ast.Constant) and st.args[1].value == "default":
+                bad.append((f, st, norm(st)))
+    ctx.require(n_self >= 8, "fewer than 8 `self.default = ...` stores inside Parameter classes (%d): the rule lost its instances" % n_self)
+    if bad:
+        f, st, text = bad[0]
+        ctx.fail(rule, f, st, "`%s` in %s rebinds the class-level value of a Parameter from outside the Parameter: the constant / read-only test of the descriptor's __set__ is not on that route "
+                              "(a read-only parameter is silently rebound; on a subclass the Parameter shared with the declaring class is rewritten)" % (text[:70], f.qualname.rsplit(".", 2)[-1]),
+                 key="%s::default-written-from-outside" % f.qualname, input="Cls.param.set_default('ro', v)   # ro = param.Number(1, readonly=True)")
+    else:
+        ctx.ok(rule, ctx.repo.func("param.parameterized.Parameter.__set__"), None, "all %d stores to `.default` are a Parameter's own (`self.default = ...` inside a Parameter class)" % n_self)
